@@ -6,7 +6,9 @@ and Idempotent on the three-phase machine and prints what the part must look lik
 replayed into remove_silence_from_performed_part.  Controls are compared by what is in force at every grid time
 (the list itself may differ in redundant entries), notes and programs exactly; in addition the sounding ends under
 the sustain pedal must move with the notes (the pedal machine of C14 is time-invariant), and a second call must
-change nothing.
+change nothing.  PartsStayTogether: two-track MIDI files built from the scenarios are loaded with
+load_performance(first_note_at_zero=True); both parts must be shifted by the first note of the performance and the pedal
+threshold set in both.
 
 Not a listed property: not registered in MANIFEST.json, prints DEVIATION lines (never VIOLATION), writes growth/G02.json."""
 import copy
@@ -112,12 +114,52 @@ def main():
                 dev("idempotent", c, "changed by a second call", "unchanged")
         except Exception as ex:
             dev("raises", c, "%s: %s" % (type(ex).__name__, ex), "no exception")
+    # ---- the parts of one performance stay together (load_performance, first_note_at_zero): a MIDI file with the later
+    #      part in track 0 and the scenario's notes in track 1, every fifth scenario whose notes have a positive length
+    import mido
+    import partitura
+    wd = tlc.workdir("g02/midi")
+    together = 0
+    for ci, c in enumerate(cases):
+        if ci % 5 or any(x["off"] <= x["on"] for x in c["notes"]):
+            continue
+        # (two notes of one pitch must not overlap in a track; the second note gets its own pitch)
+        later, own = c["together"]
+        src = [[dict(x, on=x["on"] + 1, off=x["off"] + 1) for x in c["notes"]], c["notes"]]
+        mf = mido.MidiFile(ticks_per_beat=480)
+        for tr, notes in enumerate(src):
+            track = mido.MidiTrack()
+            mf.tracks.append(track)
+            evs = []
+            for x in notes:
+                evs.append((x["on"] * 240, 1, mido.Message("note_on", note=60 + 12 * tr + x["id"], velocity=64, channel=tr)))
+                evs.append((x["off"] * 240, 0, mido.Message("note_off", note=60 + 12 * tr + x["id"], velocity=0, channel=tr)))
+            evs.sort(key=lambda e: (e[0], e[1]))
+            last = 0
+            for t, _, m in evs:
+                track.append(m.copy(time=t - last))
+                last = t
+        f = os.path.join(wd, "two.mid")
+        mf.save(f)
+        together += 1
+        try:
+            perf = partitura.load_performance(f, first_note_at_zero=True, pedal_threshold=77)
+            got = [sorted([int(x["midi_pitch"]) % 12, round(x["note_on"] / UNIT, 4), round(x["note_off"] / UNIT, 4)] for x in pp.notes) for pp in perf]
+            want = [sorted([x["id"], float(x["on"]), float(x["off"])] for x in part) for part in (later, own)]
+            if got != want:
+                dev("parts_stay_together", c, got, want)
+            if any(pp.sustain_pedal_threshold != 77 for pp in perf):
+                dev("threshold_set_in_every_part", c, [pp.sustain_pedal_threshold for pp in perf], 77)
+        except Exception as ex:
+            dev("load_performance_raises", c, "%s: %s" % (type(ex).__name__, str(ex)[:200]), "no exception")
+    import shutil
+    shutil.rmtree(wd, ignore_errors=True)
     out = os.path.join(common.OUT, "growth")
     os.makedirs(out, exist_ok=True)
     ev = {"growth_id": "G02", "spec": "Shift.tla / ShiftCases.tla", "tier": tier,
           "tlc": [{"distinct_states": r.distinct, "states_generated": r.generated, "depth": r.depth, "wall_s": round(r.wall_s, 1),
                    "actions": {k: list(v) for k, v in r.coverage.items()}}],
-          "scenarios_replayed": n, "deviations": deviations, "first_of_each": first, "wall_s": round(time.time() - t0, 1)}
+          "scenarios_replayed": n, "two_part_midi_files_loaded": together, "deviations": deviations, "first_of_each": first, "wall_s": round(time.time() - t0, 1)}
     with open(os.path.join(out, "G02.json"), "w") as f:
         json.dump(ev, f, indent=1, default=str)
     for k, v in sorted(deviations.items()):
